@@ -36,7 +36,7 @@ def obs (w : World) : String :=
   let ls := (List.range w.nL).map fun l =>
     s!"L{l}:{(w.lcls l).name}{showList (fun (o : Option VId) => match o with | none => "-" | some v => toString v) (w.ends l)}"
   let ws := (List.range w.nW).map fun x =>
-    s!"W{x}:{match w.appliesTo x with | none => "-" | some v => toString v}"
+    s!"W{x}:{match w.appliesTo x with | none => "-" | some v => toString v}:r{w.rules x}"
   "obs " ++ "|".intercalate vs ++ "#" ++ "|".intercalate ls ++ "#" ++ "|".intercalate ws ++
     "#c=" ++ (if w.caching then "1" else "0")
 
@@ -96,7 +96,8 @@ def parseOp (toks : List String) : Option Op :=
     let L ← parseOptW (if optArg opts "w" == "" then "-" else optArg opts "w")
     let attrs ← parseAttrs (optArg opts "a")
     pure (.newUniverse attrs ms L)
-  | ["lawset"] => some .newLaws
+  | ["lawset"] => some (.newLaws 0)
+  | ["lawset", r] => do pure (.newLaws (← r.toNat?))
   | ["edge", cls, a, b] => do
     let c ← LCls.ofString? cls
     if a == "!" || b == "!" then pure .newEdgeIllTyped else
